@@ -351,9 +351,10 @@ pub fn alphabet(r: &mut Rng, bits: u32, max_card: usize) -> Vec<u128> {
     }
     // cast-alias twins: two symbols that agree modulo 2^8 / 2^16 / 2^32 / 2^64 (whatever a narrowing `as` in
     // the code under test would keep), for the element types wide enough to hold them
-    if bits > 8 && vals.len() >= 2 && r.chance(1, 4) {
+    if bits > 8 && vals.len() >= 2 && r.chance(1, 3) {
         let widths: Vec<u32> = [8u32, 16, 32, 64].iter().copied().filter(|&w| w < bits).collect();
-        let w = *r.pick(&widths);
+        // the widest narrowing (u128 -> usize, u64 -> u32, …) half of the time
+        let w = if r.chance(1, 2) { *widths.last().unwrap() } else { *r.pick(&widths) };
         let x = vals[r.below(vals.len() as u64) as usize];
         let twin = (x & ((1u128 << w) - 1)) + ((1 + r.below(3) as u128) << w);
         if twin <= tmax && !vals.contains(&twin) {
